@@ -1,6 +1,7 @@
 import OdakModel.Generated.Loops
 import OdakProofs.Lemmas.GenGeometry
 import OdakModel.Parametric
+import OdakProofs.Lemmas.SphereSearch
 import OdakProofs.Lemmas.Geometry
 import Mathlib.Analysis.SpecificLimits.Basic
 
@@ -332,5 +333,148 @@ theorem C12_parametric_defaults (f : Vec3 ℝ → ℝ) (ray : Ray ℝ) :
   refine ⟨C12_parametric_bounded f ray _ _, fun dist pt k h => ?_⟩
   rw [← parametricTargetErrorN_eq]
   exact (C12_parametric_hit_residual f ray _ _ dist pt k h).1
+
+end Odak
+
+/-! ## torch `intersect_w_sphere` (`odak/learn/raytracing/boundary.py`): a FIXED number of optimiser steps on the distance
+  Model: `OdakModel/SphereSearch.lean` (loop, gradient, AdamW by hand; residual `test`, loss, flag test, returned ray, start value,
+  defaults, optimiser call and control structure REGENERATED: `Generated/SphereSearch.lean`).
+  What the source does, as the regenerated text shows: the residual is `| |p - c|² - r² |` (squared distances, not `| |p - c| - r |`);
+  `test` is computed before `optimizer.step()` in each pass, so `check = test < error_threshold` is about the distance BEFORE the last
+  update while the returned distance / point are AFTER it; the optimiser is AdamW (not plain gradient descent); with
+  `number_of_steps = 0` the function raises (`test` unbound). -/
+namespace Odak
+open Odak.Gen
+
+/-- the loop terminates after exactly `number_of_steps` optimiser updates - for every input, every scalar instance (hence also
+    the `Float` run of the driver) and every optimiser: the model's step counter is `steps`; `steps = 0` is the `unbound` outcome -/
+theorem C12_sphere_search_steps {α σ : Type} [Num α] (optStep : σ → α → α → σ × α) (init : σ) (ray : Ray α) (c0 c1 c2 r thr : α) (steps : Nat) :
+    (sphereSearchWith optStep init ray c0 c1 c2 r thr steps).steps = steps ∧
+    (sphereSearchRun optStep ray c0 c1 c2 r steps (sphereSearchInit init)).steps = steps ∧
+    (steps = 0 → sphereSearchWith optStep init ray c0 c1 c2 r thr steps = .unbound) ∧
+    (0 < steps → ∃ chk d hit, sphereSearchWith optStep init ray c0 c1 c2 r thr steps = .done chk d hit steps) := by
+  have hrun : (sphereSearchRun optStep ray c0 c1 c2 r steps (sphereSearchInit init)).steps = steps := by
+    rw [sphereSearchRun_steps]; simp [sphereSearchInit]
+  cases steps with
+  | zero => exact ⟨rfl, hrun, fun _ => rfl, fun h => absurd h (by omega)⟩
+  | succ n =>
+    refine ⟨?_, hrun, fun h => absurd h (by omega), fun _ => ?_⟩
+    · rw [sphereSearchWith_succ]; rfl
+    · exact ⟨_, _, _, sphereSearchWith_succ optStep ray c0 c1 c2 r init thr n⟩
+
+/-- the returned flag is true iff the residual `test` at the distance reached after `steps - 1` updates is below
+    `error_threshold`; the returned distance and ray are those after `steps` updates (every scalar instance, every optimiser) -/
+theorem C12_sphere_search_flag {α σ : Type} [Num α] (optStep : σ → α → α → σ × α) (init : σ) (ray : Ray α) (c0 c1 c2 r thr : α) (n : Nat)
+    (chk : Bool) (d : α) (hit : Ray α) (k : Nat)
+    (h : sphereSearchWith optStep init ray c0 c1 c2 r thr (n + 1) = .done chk d hit k) :
+    (chk = true ↔ sphereResidualT ray c0 c1 c2 r (sphereSearchRun optStep ray c0 c1 c2 r n (sphereSearchInit init)).dist < thr) ∧
+    d = (sphereSearchRun optStep ray c0 c1 c2 r (n + 1) (sphereSearchInit init)).dist ∧
+    hit = sphereHitRayT ray c0 c1 c2 r d ∧ k = n + 1 := by
+  rw [sphereSearchWith_succ] at h
+  injection h with h1 h2 h3 h4
+  subst h1 h2 h3 h4
+  exact ⟨by simp, rfl, rfl, rfl⟩
+
+/-- over ℝ the residual is `| |p - c|² - r² |` at `p = o + t d`, which is `| |p - c| - r | · (|p - c| + r)` for a radius `r ≥ 0`:
+    the flag tests the distance defect of the point from the sphere WEIGHTED by `|p - c| + r` -/
+theorem C12_sphere_residual (ray : Ray ℝ) (c0 c1 c2 r t : ℝ) (hr : 0 ≤ r) :
+    sphereResidualT ray c0 c1 c2 r t =
+      |Vec3.normSq ((propagateRayT ray t).o - ⟨c0, c1, c2⟩) - r * r| ∧
+    sphereResidualT ray c0 c1 c2 r t =
+      |Vec3.norm ((propagateRayT ray t).o - ⟨c0, c1, c2⟩) - r| * (Vec3.norm ((propagateRayT ray t).o - ⟨c0, c1, c2⟩) + r) := by
+  have e1 : sphereResidualT ray c0 c1 c2 r t = |Vec3.normSq ((propagateRayT ray t).o - ⟨c0, c1, c2⟩) - r * r| := by
+    simp only [sphereResidualT, propagateRayT, num_abs, Vec3.normSq, Vec3.dot, Vec3.sub_def, Vec3.sub]
+  refine ⟨e1, ?_⟩
+  rw [e1]
+  have hn : 0 ≤ Vec3.normSq ((propagateRayT ray t).o - ⟨c0, c1, c2⟩) := by
+    simp only [Vec3.normSq, Vec3.dot]
+    nlinarith [mul_self_nonneg ((propagateRayT ray t).o - ⟨c0, c1, c2⟩ : Vec3 ℝ).x, mul_self_nonneg ((propagateRayT ray t).o - ⟨c0, c1, c2⟩ : Vec3 ℝ).y,
+      mul_self_nonneg ((propagateRayT ray t).o - ⟨c0, c1, c2⟩ : Vec3 ℝ).z]
+  have hs : Vec3.norm ((propagateRayT ray t).o - ⟨c0, c1, c2⟩) * Vec3.norm ((propagateRayT ray t).o - ⟨c0, c1, c2⟩) =
+      Vec3.normSq ((propagateRayT ray t).o - ⟨c0, c1, c2⟩) := by
+    simp only [Vec3.norm, num_sqrt]
+    exact Real.mul_self_sqrt hn
+  rw [← hs]
+  exact abs_sq_sub_sq _ r (by simp only [Vec3.norm, num_sqrt]; exact Real.sqrt_nonneg _) hr
+
+/-- a miss is flagged false whenever the residual stays at or above the threshold along the whole ray - whatever the optimiser
+    does and however many steps are made -/
+theorem C12_sphere_search_miss_flagged_false {σ : Type} (optStep : σ → ℝ → ℝ → σ × ℝ) (init : σ) (ray : Ray ℝ) (c0 c1 c2 r thr : ℝ) (n : Nat)
+    (hmiss : ∀ t, thr ≤ sphereResidualT ray c0 c1 c2 r t) :
+    ∃ d hit, sphereSearchWith optStep init ray c0 c1 c2 r thr (n + 1) = .done false d hit (n + 1) := by
+  rw [sphereSearchWith_succ]
+  have hf : decide (sphereResidualT ray c0 c1 c2 r (sphereSearchRun optStep ray c0 c1 c2 r n (sphereSearchInit init)).dist < thr) = false := by
+    simp only [decide_eq_false_iff_not, not_lt]
+    exact hmiss _
+  rw [hf]
+  exact ⟨_, _, rfl⟩
+
+/-- a sufficient geometric condition: a ray (direction `d ≠ 0`, not necessarily unit) whose line keeps a squared distance of at
+    least `r² + threshold` from the centre (`|w|²|d|² - (w·d)² ≥ (r² + threshold)|d|²`, `w = o - c`) is flagged false -/
+theorem C12_sphere_search_line_misses {σ : Type} (optStep : σ → ℝ → ℝ → σ × ℝ) (init : σ) (ray : Ray ℝ) (c0 c1 c2 r thr : ℝ) (n : Nat)
+    (hd : 0 < Vec3.normSq ray.d)
+    (hmargin : (r * r + thr) * Vec3.normSq ray.d ≤
+      Vec3.normSq (ray.o - ⟨c0, c1, c2⟩) * Vec3.normSq ray.d - Vec3.dot (ray.o - ⟨c0, c1, c2⟩) ray.d * Vec3.dot (ray.o - ⟨c0, c1, c2⟩) ray.d) :
+    ∃ d hit, sphereSearchWith optStep init ray c0 c1 c2 r thr (n + 1) = .done false d hit (n + 1) := by
+  apply C12_sphere_search_miss_flagged_false
+  intro t
+  rw [sphereResidualT_real]
+  exact le_trans (sphereQ_lower ray c0 c1 c2 r thr t hd hmargin) (le_abs_self _)
+
+/-- the gradient the model hands to the optimiser is the derivative of the REGENERATED loss with respect to the distance (the loss
+    `|q|²` is smooth also where `q = 0`, where autograd's `sign 0 = 0` gives the same value `0`) -/
+theorem C12_sphere_loss_grad_is_derivative (ray : Ray ℝ) (c0 c1 c2 r t : ℝ) :
+    HasDerivAt (fun t => sphereLossT ray c0 c1 c2 r t) (sphereLossGrad ray c0 c1 c2 r t) t :=
+  sphereLoss_hasDerivAt ray c0 c1 c2 r t
+
+/-- a zero direction: the gradient vanishes, AdamW (weight decay of the parameter 0 included) leaves the distance at 0 in every
+    pass, the returned point is the start point of the ray, and the flag is the threshold test on the residual of the start point -/
+theorem C12_sphere_search_zero_direction (ray : Ray ℝ) (c0 c1 c2 r lr thr : ℝ) (n : Nat) (hd : ray.d = ⟨0, 0, 0⟩) :
+    (sphereSearchRun (adamWStep lr) ray c0 c1 c2 r n (sphereSearchInit adamInit)).dist = 0 ∧
+    sphereSearch ray c0 c1 c2 r lr thr (n + 1) =
+      .done (decide (|Vec3.normSq (ray.o - ⟨c0, c1, c2⟩) - r * r| < thr)) 0 ⟨ray.o, ⟨0, 0, 0⟩⟩ (n + 1) := by
+  have hg : ∀ t, sphereLossGrad ray c0 c1 c2 r t = 0 := by
+    intro t; rw [sphereLossGrad_real, hd]; simp
+  have inv : ∀ k, (sphereSearchRun (adamWStep lr) ray c0 c1 c2 r k (sphereSearchInit adamInit)).dist = 0 ∧
+      (sphereSearchRun (adamWStep lr) ray c0 c1 c2 r k (sphereSearchInit adamInit)).opt = ⟨0, 0, k⟩ := by
+    intro k
+    induction k with
+    | zero => simp [sphereSearchRun, sphereSearchInit, sphereSearchInitT, adamInit]
+    | succ k ih =>
+      rw [sphereSearchRun_dist_succ, sphereSearchRun_opt_succ, ih.1, ih.2, hg, adamWStep_zero]
+      exact ⟨rfl, rfl⟩
+  refine ⟨(inv n).1, ?_⟩
+  unfold sphereSearch
+  rw [sphereSearchWith_succ, (inv n).1, (inv (n + 1)).1]
+  have e1 : sphereResidualT ray c0 c1 c2 r 0 = |Vec3.normSq (ray.o - ⟨c0, c1, c2⟩) - r * r| := by
+    simp only [sphereResidualT, propagateRayT, num_abs, Vec3.normSq, Vec3.dot, Vec3.sub_def, Vec3.sub, zero_mul, zero_add]
+  have e2 : sphereHitRayT ray c0 c1 c2 r 0 = ⟨ray.o, ⟨0, 0, 0⟩⟩ := by
+    rw [show sphereHitRayT ray c0 c1 c2 r 0 = propagateRayT ray 0 from rfl, propagateRayT_eq]
+    apply Ray.ext'
+    · apply Vec3.ext' <;> simp [Vec3.add_def, Vec3.add, Vec3.smul]
+    · rfl
+  rw [e1, e2]
+
+/-- [regenerated control structure and optimiser call] the loop modelled by `sphereSearch` is the loop of the source: a `for` over
+    `range(number_of_steps)` without another exit; `test` before `optimizer.step()` in the body; the flag from the last `test` after
+    the loop; `torch.optim.AdamW([distance], lr = learning_rate)` with no other argument; start value 0; and the defaults -/
+theorem C12_gen_sphere_search_loop_shape :
+    sphereSearchLoopShape = sphereSearchModelledShape ∧ sphereSearchOptimizer = sphereSearchModelledOptimizer ∧
+    (sphereSearchInitT : ℝ) = 0 ∧ sphereSearchStepsT = 5000 ∧ (sphereSearchLrT : ℝ) = 1 / 5 ∧ (sphereSearchThresholdT : ℝ) = 1 / 100 := by
+  refine ⟨by decide, by decide, by simp [sphereSearchInitT], rfl, ?_, ?_⟩
+  · simp only [sphereSearchLrT, num_ofSci]; norm_num
+  · simp only [sphereSearchThresholdT, num_ofSci]; norm_num
+
+/-- with the defaults of the source: exactly 5000 optimiser steps, and the flag is the `1e-2` test at the distance after 4999 -/
+theorem C12_sphere_search_defaults (ray : Ray ℝ) (c0 c1 c2 r : ℝ) :
+    (sphereSearch ray c0 c1 c2 r sphereSearchLrT sphereSearchThresholdT sphereSearchStepsT).steps = 5000 ∧
+    ∃ d hit, sphereSearch ray c0 c1 c2 r sphereSearchLrT sphereSearchThresholdT sphereSearchStepsT =
+      .done (decide (sphereResidualT ray c0 c1 c2 r
+          (sphereSearchRun (adamWStep sphereSearchLrT) ray c0 c1 c2 r 4999 (sphereSearchInit adamInit)).dist < 1 / 100)) d hit 5000 := by
+  have hs : sphereSearchStepsT = 4999 + 1 := rfl
+  have ht : (sphereSearchThresholdT : ℝ) = 1 / 100 := C12_gen_sphere_search_loop_shape.2.2.2.2.2
+  unfold sphereSearch
+  rw [hs, sphereSearchWith_succ, ht]
+  exact ⟨rfl, _, _, rfl⟩
 
 end Odak
